@@ -535,6 +535,29 @@ fn serde_shapes() {
             let r = Set::deserialize_in_place(&mut serde_json::Deserializer::from_str(&serde_json::to_string(&ssrc).unwrap()), &mut st);
             if r.is_err() || st != ssrc { fault(format!("op=shapes SERDE_SHAPE Set::deserialize_in_place into a non-empty set gives {:?}", st)); }
         }
+        // zero-sized VALUES that are not unit on the wire (an empty array is an empty tuple; a marker may write a
+        // version byte): a Map is a map of len() entries whatever the size of its values
+        {
+            #[derive(Debug, PartialEq, Clone, Copy)] struct V1;
+            impl serde::Serialize for V1 { fn serialize<S: serde::Serializer>(&self, s: S) -> Result<S::Ok, S::Error> { s.serialize_u8(1) } }
+            impl<'de> serde::Deserialize<'de> for V1 { fn deserialize<D: serde::Deserializer<'de>>(d: D) -> Result<V1, D::Error> {
+                let b = <u8 as serde::Deserialize>::deserialize(d)?; if b == 1 { Ok(V1) } else { Err(serde::de::Error::custom("bad version")) } } }
+            let mut za: Map<u8, [u8; 0], 4> = Map::new(); za.insert(1, []); za.insert(2, []); za.insert(3, []); za.remove(&1);
+            let txt = serde_json::to_string(&za).unwrap();
+            match (serde_json::to_value(&za), serde_json::from_str::<Map<u8, [u8; 0], 6>>(&txt)) {
+                (Ok(serde_json::Value::Object(o)), Ok(back)) if o.len() == za.len() && back.len() == za.len() && za.iter().all(|(k, _)| back.contains_key(k)) => {}
+                other => fault(format!("op=shapes SERDE_SHAPE Map<u8,[u8;0],4> serializes as {} and reads back as {:?}", txt, other.1.map(|m| m.len()))),
+            }
+            let mut zb: Map<u8, V1, 3> = Map::new(); zb.insert(7, V1); zb.insert(8, V1);
+            let txt = serde_json::to_string(&zb).unwrap();
+            match serde_json::from_str::<Map<u8, V1, 3>>(&txt) {
+                Ok(back) if back == zb && txt.matches(":1").count() == 2 => {}
+                other => fault(format!("op=shapes SERDE_SHAPE Map<u8, zero-sized marker with a version byte, 3> serializes as {} and reads back as {:?}", txt, other.map(|m| m.len()))),
+            }
+            let bytes = bincode::serde::encode_to_vec(&zb, bincode::config::standard()).unwrap();
+            let back: Result<(Map<u8, V1, 3>, usize), _> = bincode::serde::decode_from_slice(&bytes, bincode::config::standard());
+            match back { Ok((b, n)) if b == zb && n == bytes.len() => {}, other => fault(format!("op=shapes SERDE_SHAPE Map<u8, marker, 3> does not round trip through bincode: {} bytes, {:?}", bytes.len(), other.map(|x| (x.0.len(), x.1)))) }
+        }
         let nested: Map<u32, Set<u32, 3>, 2> = Map::from([(1, Set::from([1, 2, 3])), (2, Set::new())]);
         let txt = serde_json::to_string(&nested).unwrap();
         match serde_json::from_str::<Map<u32, Set<u32, 3>, 2>>(&txt) { Ok(b) if b == nested => {}, other => fault(format!("op=shapes SERDE_SHAPE nested {} reads back as {:?}", txt, other)) }
@@ -790,6 +813,8 @@ fn borrow_shapes() {
         for (p, len) in stored { for n in 0..=len {
             let q: &str = unsafe { std::str::from_utf8_unchecked(std::slice::from_raw_parts(p, n)) };
             let want = ["car", "cart", "", "dog"].iter().position(|x| *x == q).map(|i| i as u32);
+            let idx = catch_unwind(AssertUnwindSafe(|| sm[q])).ok();
+            if idx != want { fault(format!("op=shapes SHAPE_BORROW Map<String,u32,5>: indexing with a needle {:?} aliasing a stored key's buffer gives {:?}, expected {:?} (a panic when absent)", q, idx, want)); }
             if sm.get(q).copied() != want || sm.contains_key(q) != want.is_some() || sm.get_key_value(q).map(|(k, _)| k.as_str()) != want.map(|_| q) {
                 fault(format!("op=shapes SHAPE_BORROW Map<String,u32,5>: a needle {:?} aliasing a stored key's buffer is looked up wrongly (get = {:?}, expected {:?})", q, sm.get(q), want)); }
         } }
@@ -837,6 +862,35 @@ fn borrow_shapes() {
         if p2.a == p2.b || p2.b == p2.a { fault("op=shapes SHAPE_BORROW an empty Map<u64,u64,0> compares equal to a non-empty Map<u64,u64,2> stored behind it".into()); }
     });
     if r.is_err() { fault("op=shapes SHAPE_BORROW the borrowed-lookup scenario panicked".into()); }
+}
+
+// element types whose whole value domain fits the capacity (one byte, zero-sized) under a MISBEHAVING == (never equal,
+// not even to itself): every insertion path, bulk ones included, panics or refuses once the container is full -- len
+// never exceeds the capacity and nothing outside the container is written
+fn tiny_domain_shapes() {
+    #[derive(Clone, Copy, Debug)] struct Never;                 // zero-sized, == always false
+    impl PartialEq for Never { fn eq(&self, _: &Never) -> bool { false } }
+    #[derive(Clone, Copy, Debug)] struct F8(u8);                // one byte, 0xff is a NaN: unequal to itself
+    impl PartialEq for F8 { fn eq(&self, o: &F8) -> bool { self.0 != 0xff && self.0 == o.0 } }
+    fn run<T: PartialEq + Copy + std::fmt::Debug, const N: usize>(what: &str, fill: &[T], more: &[T]) {
+        let mut g = G::new(Set::<T, N>::new());
+        for x in fill { let _ = catch_unwind(AssertUnwindSafe(|| { g.v.insert(*x); })); }
+        let paths: [&dyn Fn(&mut Set<T, N>); 4] = [&|s| { s.extend(more.iter().copied()); }, &|s| { s.extend(more.iter()); }, &|s| { for x in more { s.insert(*x); } }, &|s| { for x in more { s.replace(*x); } }];
+        for (i, p) in paths.iter().enumerate() {
+            let _ = catch_unwind(AssertUnwindSafe(|| p(&mut g.v)));
+            if g.v.len() > N || g.v.iter().count() != g.v.len() || !g.ok() {
+                fault(format!("op=shapes LEN_GT_CAP {} Set<_,{}> under a never-reflexive ==: after bulk path {} len() = {}, iteration yields {}, memory next to the set intact: {}", what, N, i, g.v.len(), g.v.iter().count(), g.ok()));
+                return;
+            }
+        }
+        let c: Result<Set<T, N>, _> = catch_unwind(AssertUnwindSafe(|| more.iter().copied().chain(more.iter().copied()).collect()));
+        if let Ok(c) = c { if c.len() > N { fault(format!("op=shapes LEN_GT_CAP {} collect into Set<_,{}> gives len() = {}", what, N, c.len())); } }
+    }
+    run::<Never, 4>("zero-sized element, == always false", &[Never; 4], &[Never; 6]);
+    run::<Never, 1>("zero-sized element, == always false", &[Never; 1], &[Never; 3]);
+    let vals: Vec<F8> = (0..250u8).map(F8).collect(); let nans = [F8(0xff); 10];
+    run::<F8, 256>("one-byte element with a NaN", &vals, &nans);
+    run::<F8, 4>("one-byte element with a NaN", &vals[..4], &nans);
 }
 
 // stored-key identity with key types WITHOUT drop glue (Copy), where equal keys are distinguishable
@@ -996,6 +1050,7 @@ pub fn run() {
     fmt_shapes();
     borrow_shapes();
     identity_shapes();
+    tiny_domain_shapes();
     disjoint_wide();
     provided_methods();
 }
